@@ -161,7 +161,7 @@ def record_one(spec):
     # as it is an admissible reading (rounding ties); otherwise the CSS meaning replaces it and every clause is judged on that
     css_override = []
     for side, val in (("text", text), ("bg", bg)):
-        rr = (refs.css_parse(val) or refs.lib_hsl_parse(val)) if isinstance(val, str) else None
+        rr = (refs.css_parse(val) or refs.lib_hsl_parse(val) or (refs.css4_parse(val) if side == "bg" or not str(val).strip().startswith("#") else None)) if isinstance(val, str) else None
         if rr is not None and rr["alpha"] is None and not (side == "text" and spec.get("comp")):
             cur = t_rgb if side == "text" else b_rgb
             if not all(cur[k] in rr["chans"][k] for k in range(3)):
@@ -349,6 +349,14 @@ def spell(c, kind, rnd):
         if rr is not None and all(ch == {v} for ch, v in zip(rr["chans"], c)):
             return txt
         return hexs(c)
+    if kind == "hslunit":
+        # CSS Color 4: the hue with an angle unit (whole degrees that are exact in turns and grads: multiples of 9)
+        h_, s_, l_ = _rgb_to_hsl_int(c)
+        h_ = (h_ // 9) * 9
+        return rnd.choice(["hsl(%sturn, %d%%, %d%%)" % (("%.3f" % (h_ / 360)).rstrip("0").rstrip(".") or "0", s_, l_),
+                           "hsl(%dgrad, %d%%, %d%%)" % (h_ * 10 // 9, s_, l_), "hsl(%ddeg, %d%%, %d%%)" % (h_, s_, l_)])
+    if kind == "hex8":
+        return "#%02x%02x%02x%s" % (r, g, b, rnd.choice(["00", "33", "80", "cc", "ff", "1a"]))
     if kind == "hslafn":
         h, s, l = _rgb_to_hsl_int(c)
         return "hsla(%d, %d%%, %d%%, %s)" % (h, s, l, rnd.choice(["0.5", "0.85", "1", "0.4"]))
